@@ -508,7 +508,8 @@ def r9(ctx: Ctx) -> None:
         body = fold_sums(lp_[3])
         bd = deref(body, single_defs(body))
         b0 = ("b", 1, 0)
-        rect = ("a", ("s", ("a", s_, "_allocations"), ("a", b0, "rect_index")), "rect")
+        from .common import self_field
+        rect = ("a", ("s", self_field(f, "_allocations"), ("a", b0, "rect_index")), "rect")
         share = (to_poly(("a", b0, "area_ratio")) * to_poly(("a", rect, "area"))).to_s()
 
         def total(elt):
